@@ -949,10 +949,7 @@ def random_item(rng):
             cur = 0 if cur is None else cur + 1
         while cur in used:
             cur += 1
-            if disc is not None:
-                disc = ([str(cur)], cur)
-            else:
-                disc = ([str(cur)], cur)
+            disc = ([str(cur)] if cur >= 0 else ['-', str(-cur)], cur)      # a negative literal is two tokens
         used.add(cur)
         vs.append(variant('V%d' % i, shape, fs, va, disc))
     all_fieldless = all(not v['fields'] for v in vs)
